@@ -111,6 +111,7 @@ def fkind : CType → CType
 def f0Cell (kind : String) (i : Int) : Option Cell :=
   match kind with
   | "f0i" => some (.int i)
+  | "f0r" => none   -- handled by `f0rCell` (needs the seed)
   | "f0f" => some (.float (fDiv (fOfInt i) (fOfInt 2)))
   | "f0b" => some (.bool (i % 3 == 0))
   | "f0s" => some (if i % 4 == 3 then .str none else .str (some (strBytes ("s" ++ toString i))))
@@ -144,6 +145,14 @@ def applyInstr (up : UpperOracle) (f : LFrame) (mask0 : Nat → Bool) (ins : Ins
         if ins.dst == name then .ok f
         else if !legalName ins.dst then .err
         else .ok (setCol f { c with name := ins.dst, cells := ((List.range f.n).map (fun r => if mask r then c.cells[r]! else zeroCell c.ty)).toArray })
+    | .f0 "f0r" seed =>
+      -- pseudo-random distinct numbers: the k-th selected row receives (seed·7919 + k·104729) mod 1000003
+      let sel := (List.range f.n).filter mask
+      let cells := (List.range f.n).map (fun r =>
+        match sel.idxOf? r with
+        | some k => Cell.int ((seed * 7919 + (k : Int) * 104729) % 1000003)
+        | none => Cell.int 0)
+      if legalName ins.dst then .ok (setCol f { name := ins.dst, ty := .int, cells := cells.toArray }) else .err
     | .f0 kind start =>
       match f0Cell kind 0 with
       | none => .err
